@@ -5,6 +5,7 @@ from ..env import np, puan, pnd
 
 ID = "C19"
 RULE = ("Mode M: EVERY matrix [b|A] with 1..2 rows x 1..2 columns over {-1,0,1,2} (quick: 2x2 over {-1,0,1}; thorough adds 3x2 / 2x3 over {-1,0,1}) x EVERY points array of "
+        "(the polyhedron OBJECT is reused from matrix to matrix by in-place assignment, plus a fresh object every 4th matrix) "
         "ndim 1 (one point), ndim 2 (1..3 points), ndim 3 (1..2 groups x 1..2 points) over {-1,0,1} (over {0,1} where the product would exceed 100 arrays). oracle: direct A p >= b per point; "
         "ineqs_satisfied = all rows per point, separable = its negation, ineq_separate_points = per row 'some point of the group violates'; "
         "output shapes (), (n,), (g,n) resp. (r,), (r,), (g,r). non-trivial = distinct (matrix, points) with mixed verdicts")
@@ -65,12 +66,22 @@ def shards(tier):
 def run_shard(desc, acc, tier):
     si, lo, hi = desc
     r, c, alpha, pv = spaces(tier)[si]
+    shared = None
     for mi, M in enumerate(itertools.islice(matrices(r, c, alpha), lo, hi), start=lo):
-        check_matrix(M, c, pv, acc, {"tier": tier, "si": si, "mi": mi})
+        # the polyhedron is a numpy array and users edit arrays in place: the same OBJECT is carried from matrix to matrix (P[...] = M), so that
+        # anything a method remembers on the instance is stale for the next matrix; every 4th matrix additionally uses a fresh object
+        if shared is None:
+            shared = pnd.ge_polyhedron(M.copy())
+        else:
+            shared[...] = M
+        check_matrix(M, c, pv, acc, {"tier": tier, "si": si, "mi": mi, "lo": lo, "shared": True}, P=shared)
+        if mi % 4 == 0:
+            check_matrix(M, c, pv, acc, {"tier": tier, "si": si, "mi": mi, "lo": lo, "shared": False})
 
 
-def check_matrix(M, c, pv, acc, case, only=None):
-    P = pnd.ge_polyhedron(M.copy())
+def check_matrix(M, c, pv, acc, case, only=None, P=None):
+    if P is None:
+        P = pnd.ge_polyhedron(M.copy())
     A, b = M[:, 1:], M[:, 0]
     acc.n("matrices")
     mixed = False
@@ -124,5 +135,18 @@ def check_matrix(M, c, pv, acc, case, only=None):
 
 def replay(case, acc):
     r, c, alpha, pv = spaces(case["tier"])[case["si"]]
+    if case.get("shared"):
+        # re-create the history: the shared object has seen every matrix of the shard from `lo` up to `mi`
+        shared = None
+        for mi, M in enumerate(itertools.islice(matrices(r, c, alpha), case["lo"], case["mi"] + 1), start=case["lo"]):
+            if shared is None:
+                shared = pnd.ge_polyhedron(M.copy())
+            else:
+                shared[...] = M
+            if mi < case["mi"]:
+                for kind, pts in pts_for(c, pv)[:3]:
+                    shared.ineqs_satisfied(pts.copy()); shared.separable(pts.copy()); shared.ineq_separate_points(pts.copy())
+        check_matrix(M, c, pv, acc, dict(case), only=case.get("pi"), P=shared)
+        return
     M = next(itertools.islice(matrices(r, c, alpha), case["mi"], case["mi"] + 1))
-    check_matrix(M, c, pv, acc, {"tier": case["tier"], "si": case["si"], "mi": case["mi"]}, only=case.get("pi"))
+    check_matrix(M, c, pv, acc, {"tier": case["tier"], "si": case["si"], "mi": case["mi"], "shared": False}, only=case.get("pi"))
